@@ -132,6 +132,55 @@ def health(ctx):
     return True
 
 
+def e2e(ctx):
+    """top-level composition: the real fabio binary against the fake Consul, validated against Fabio_Trace"""
+    import subprocess
+    mc = ctx.tlc("Fabio_MC", cfg="Fabio_MC", workers=8, timeout=900)
+    if not ctx.need_tlc_ok(mc, "Fabio MC"):
+        return False
+    ctx.cover("fabio-mc", states=mc.distinct, transitions=mc.generated)
+    gobin, genv = vf.go_tool()
+    binp = os.path.join(ctx.tmp, "fabio")
+    b = subprocess.run([gobin, "build", "-o", binp, "."], cwd=vf.REPO, env=genv, capture_output=True, text=True)
+    if b.returncode != 0:
+        ctx.inconclusive("fabio does not build:\n" + (b.stdout + b.stderr)[-2000:])
+        return False
+    runs = ctx.pick(1, 4)
+    for k in range(runs):
+        g = ctx.gotest(".", ["main/fabio_e2e_test.go"], "^TestVerifFabioE2E$", timeout=600,
+                       env={"VERIF_FABIO_BIN": binp, "VERIF_E2E_STEPS": ctx.pick(200, 600), "VERIF_SEED": ctx.seed * 100 + k})
+        if not ctx.need_go_ok(g, "Fabio end-to-end"):
+            return False
+        s = g.summary
+        ctx.take_failures(g, "e2e")
+        r = ctx.tlc("Fabio_Trace", cfg="Fabio_Trace", workers=1, env={"VERIF_TRACE": s["trace"]}, timeout=900)
+        if r.timed_out or r.error:
+            ctx.inconclusive("Fabio trace validation did not complete: %s" % (r.error or "timeout"))
+            return False
+        ctx.log("fabio binary end to end: %d registry changes, %d concurrent requests, %d quiescent comparisons, %d events, %d states: %s"
+                % (s["steps"], s["requests"], s["compared"], s["events"], r.distinct, "accepted" if r.ok else "REJECTED (%s)" % r.violated))
+        if r.ok:
+            ctx.cover("e2e", traces_validated_against_impl=1, states=r.distinct, transitions=r.generated, evaluations=s["requests"] + s["compared"])
+        else:
+            ctx.violation({"sub": "e2e-trace", "why": r.violated},
+                          "the execution recorded from the real fabio binary (registry changes, consul queries, client requests and answers) is not a behaviour of Fabio (%s)" % r.violated,
+                          replay={"sub": "e2e-trace", "case": None})
+        if k == 0:
+            lines = open(s["trace"]).read().splitlines()
+            idx = [i for i, ln in enumerate(lines) if '"ev":"ReqRet"' in ln and ('"res":"a1"' in ln or '"res":"b1"' in ln or '"res":"a2"' in ln)]
+            if not idx:
+                ctx.inconclusive("e2e self-test: no request was served by an instance")
+                return False
+            j = idx[len(idx) // 2]
+            lines[j] = lines[j].replace('"res":"a1"', '"res":"X"').replace('"res":"a2"', '"res":"X"').replace('"res":"b1"', '"res":"X"')
+            bad = os.path.join(ctx.tmp, "fabio.bad.ndjson")
+            open(bad, "w").write("\n".join(lines) + "\n")
+            r2 = ctx.tlc("Fabio_Trace", cfg="Fabio_Trace", workers=1, env={"VERIF_TRACE": bad}, timeout=900)
+            if r2.ok:
+                ctx.inconclusive("e2e self-test: a trace with one answer attributed to another upstream was accepted")
+    return True
+
+
 def run(ctx):
     ctx.assumptions += [
         "universe: instances a1,a2 (service A, same service id on nodes n1,n2), b1 (service B on n1); instance states absent/pass/fail/maint/bad(inexpressible tags); node states ok/maint/serfdown; overrides none/route del/route weight/route add/syntax error",
@@ -153,6 +202,8 @@ def run(ctx):
         # every configuration after the first runs with dotted node names / service ids
         if not one_pipeline(ctx, hist, st, req, fs, selftest=(k == 0), naming=("plain" if k == 0 else "dotted")):
             return
+    if not e2e(ctx):
+        return
     ctx.cover(rule="registry histories: all of <=k changes (k=2 quick, 3 thorough; sampled above the cap) plus seeded random ones, each applied step by step (a seeded third of the health changes under snapshot/catalog skew); health rule: every multiset of <=3 (quick) / <=4 (thorough) checks x 28 configurations; non-trivial = multiset of >=2 checks routing at least one instance")
 
 
